@@ -249,7 +249,14 @@ impl SubFileSizes {
     /// Calculate the valid value of lf, given all of the other fields.
     pub fn valid_lf(&self) -> i16 {
         let s = self;
-        6 + s.lh + (s.ec - s.bc + 1) + s.nw + s.nh + s.nd + s.ni + s.nl + s.nk + s.ne + s.np
+        let t: i32 = [s.lh, s.ec, s.nw, s.nh, s.nd, s.ni, s.nl, s.nk, s.ne, s.np]
+            .iter()
+            .map(|x| *x as i32)
+            .sum::<i32>()
+            + 7
+            - s.bc as i32;
+        // No 16-bit lf can be valid when the sizes sum past i16::MAX.
+        i16::try_from(t).unwrap_or(-1)
     }
 }
 
